@@ -174,6 +174,33 @@ def _decimal_as_text(decimal_value, precision=DEFAULT_PRECISION):
     return "%.*f" % (precision, decimal_value)
 
 
+def _tokenizable_description(description):
+    """
+    Same as ``description`` but with any :py:const:`ELLIPSIS` outside of
+    quoted text replaced by a colon (:), which means the same. Starting with
+    Python 3.12 :py:mod:`tokenize` does not yield non ASCII characters as
+    separate tokens anymore but considers them to be part of a name.
+    """
+    assert description is not None
+    result = ""
+    quote = None
+    is_escaped = False
+    for character in description:
+        if quote is not None:
+            if is_escaped:
+                is_escaped = False
+            elif character == "\\":
+                is_escaped = True
+            elif character == quote:
+                quote = None
+        elif character in "\"'":
+            quote = character
+        elif character == ELLIPSIS:
+            character = ":"
+        result += character
+    return result
+
+
 class Range(object):
     """
     A range that can be used to validate that a value is within it.
@@ -211,7 +238,7 @@ class Range(object):
 
             name_for_code = "range"
             location = None  # TODO: Add location where range is declared.
-            tokens = _tools.tokenize_without_space(self._description)
+            tokens = _tools.tokenize_without_space(_tokenizable_description(self._description))
             end_reached = False
             while not end_reached:
                 lower = None
@@ -545,7 +572,7 @@ class DecimalRange(Range):
         else:
             self._description = description.replace("...", ELLIPSIS)
             self._items = []
-            tokens = _tools.tokenize_without_space(self._description)
+            tokens = _tools.tokenize_without_space(_tokenizable_description(self._description))
             end_reached = False
             max_digits_after_dot = 0
             max_digits_before_dot = 0
